@@ -387,21 +387,95 @@ Proof.
     + apply IHo; auto.
 Qed.
 
+Lemma nth_map_default : forall {A B} (f : A -> B) (l : list A) i d d',
+  (i < length l)%nat -> nth i (map f l) d' = f (nth i l d).
+Proof.
+  intros A B f l; induction l; intros i d d' H; simpl in *. lia.
+  destruct i; auto. apply IHl; lia.
+Qed.
+
 Theorem sub_block_entry : forall (J : mat) (rs cs : nat * nat) i j,
   (i < snd rs)%nat -> (j < snd cs)%nat ->
   nth j (nth i (sub_block J rs cs) []) 0 = nth (fst cs + j) (nth (fst rs + i) J []) 0.
 Proof.
-  intros J rs cs i j Hi Hj. unfold sub_block.
+  intros J rs cs i j Hi Hj. unfold sub_block. unfold mat, vec in *.
   destruct (Nat.lt_ge_cases (fst rs + i) (length J)) as [Hl|Hl].
   - assert (Hlen : (i < length (firstn (snd rs) (skipn (fst rs) J)))%nat).
     { rewrite firstn_length, skipn_length. lia. }
-    rewrite (@nth_indep _ _ i [] (firstn (snd cs) (skipn (fst cs) [])))
-      by (rewrite map_length; auto).
-    rewrite (map_nth (fun row => firstn (snd cs) (skipn (fst cs) row))).
+    rewrite (nth_map_default (fun row : list Q => firstn (snd cs) (skipn (fst cs) row))
+               (firstn (snd rs) (skipn (fst rs) J)) i [] [] Hlen).
     rewrite nth_firstn_skipn by auto.
     rewrite nth_firstn_skipn by auto. reflexivity.
   - rewrite (nth_overflow J) by lia.
-    rewrite nth_overflow.
-    + simpl. destruct (fst cs + j)%nat; destruct j; reflexivity.
-    + rewrite map_length, firstn_length, skipn_length. lia.
+    assert (E : nth i (map (fun row : list Q => firstn (snd cs) (skipn (fst cs) row))
+                         (firstn (snd rs) (skipn (fst rs) J))) [] = []).
+    { apply nth_overflow. rewrite map_length, firstn_length, skipn_length. lia. }
+    rewrite E. simpl. destruct (fst cs + j)%nat; destruct j; reflexivity.
 Qed.
+
+(* ------------------------------------------------------------------ spec level *)
+
+Lemma wf_matb_sound : forall n M, wf_matb n M = true -> wf_mat n M /\ length M = n.
+Proof.
+  unfold wf_matb, wf_mat; intros n M H. apply andb_prop in H; destruct H as [H1 H2].
+  split. apply Forall_forall. intros r Hr. rewrite forallb_forall in H1. apply Nat.eqb_eq. auto.
+  apply Nat.eqb_eq; auto.
+Qed.
+
+Lemma scale_row_compat : forall cf rf a b, vec_eq a b -> vec_eq (scale_row cf rf a) (scale_row cf rf b).
+Proof.
+  unfold scale_row, vec_eq. intros cf rf a b H; revert cf.
+  induction H; intros cf; destruct cf; cbn [combine map]; constructor; auto.
+  cbn [fst snd]. rewrite !Qred_correct. rewrite H. reflexivity.
+Qed.
+
+Lemma scale_J_compat : forall rf cf A B, mat_eq A B -> mat_eq (scale_J rf cf A) (scale_J rf cf B).
+Proof.
+  unfold scale_J, mat_eq. intros rf cf A B H; revert rf.
+  induction H; intros rf; destruct rf; cbn [combine map]; constructor; auto.
+  cbn [fst snd]. apply scale_row_compat; auto.
+Qed.
+
+(* forward and reverse totals of a model spec are the same matrix, with or without driver scaling *)
+Theorem totals_fwd_eq_rev : forall (s : spec) (dvs rs : list voi) (ds : bool) (Jf Jr : mat),
+  totals false ds s dvs rs = Some Jf -> totals true ds s dvs rs = Some Jr -> mat_eq Jf Jr.
+Proof.
+  unfold totals. intros s dvs rs ds Jf Jr Hf Hr.
+  destruct (wf_matb _ _) eqn:W; try discriminate.
+  apply wf_matb_sound in W; destruct W as [W1 W2].
+  destruct (inverse _) as [N|]; try discriminate.
+  destruct (jac_fwd _ _ _ _ _) as [Jf0|] eqn:Ef; try discriminate.
+  destruct (jac_rev _ _ _ _ _) as [Jr0|] eqn:Er; try discriminate.
+  inversion Hf; inversion Hr; subst.
+  apply scale_J_compat. eapply jac_fwd_eq_jac_rev; eauto.
+Qed.
+
+Lemma run_totals_unfold : forall s dvs rs, run_totals s dvs rs = run_totals_spec s dvs rs.
+Proof.
+  intros. unfold run_totals, run_totals_spec, totals.
+  destruct (wf_matb _ _); auto. destruct (inverse _); auto.
+Qed.
+
+(* ------------------------------------------------------------------ non-vacuity *)
+
+(* d (IndepVarComp) -> y = 2 d:  M = [[-1;0];[2;-1]] *)
+Definition ex_spec : spec := [CIvc [[3]]; CExp [mkinp 0 [0%nat] 1] [mkeout 1 [[[2]]] [5]]].
+Definition ex_dv : voi := mkvoi 0 [0%nat] None None None 1.
+Definition ex_r : voi := mkvoi 1 [0%nat] (Some [4]) None None 1.
+
+Example ex_totals_fwd : totals false false ex_spec [ex_dv] [ex_r] = Some [[2]].
+Proof. vm_compute. reflexivity. Qed.
+Example ex_totals_rev : totals true true ex_spec [ex_dv] [ex_r] = Some [[8]].
+Proof. vm_compute. reflexivity. Qed.
+Example ex_state : state ex_spec = Some [3; 11].
+Proof. vm_compute. reflexivity. Qed.
+Example ex_left_inverse :
+  left_inverse_cert [[-1; 0]; [-2; -1]] (sys_mat ex_spec) 2.
+Proof. apply left_inverse_certb_sound. vm_compute. reflexivity. Qed.
+(* the premises of J_is_difference_quotient are satisfiable: step h = 1/2 in the design variable *)
+Example ex_difference_quotient :
+  let M := sys_mat ex_spec in
+  vec_eq (mat_vec M [3; 11]) [-3; -5] /\
+  vec_eq (mat_vec M [7 # 2; 12]) (vadd [-3; -5] (vscale (1 # 2) (unit_at 2 0 (-1)))) /\
+  vec_eq (mat_vec M [1; 2]) (unit_at 2 0 (-1)).
+Proof. repeat split; apply vec_eqb_sound; vm_compute; reflexivity. Qed.
